@@ -2,9 +2,19 @@
 
 package main
 
+// Harness components for properties C18 (conntrack: tracked flows are per-tuple and expire when idle) and C19
+// (fwreload: tracked flows are revalidated after a rule reload), plus gen_conntrack (T1 constants).
+//
+// Virtual time: the real code reads time.Now() directly, so every history runs inside its own testing/synctest
+// bubble (testing.Main bootstraps one *testing.T in this non-test binary; all output files are written before the
+// test function returns, because testing.Main ends with os.Exit).
+
 import (
 	"fmt"
+	"math/big"
 	"net/netip"
+	"os"
+	"strings"
 	"testing"
 	"testing/synctest"
 	"time"
@@ -15,45 +25,746 @@ import (
 )
 
 func init() {
-	hx.Register("conntrack", runCTProto)
+	hx.Register("gen_conntrack", genConntrack)
+	hx.Register("conntrack", func(c *hx.Ctx) { runCT(c, false) })
+	hx.Register("fwreload", func(c *hx.Ctx) { runCT(c, true) })
 }
 
-func runCTProto(c *hx.Ctx) {
-	testing.Main(func(pat, str string) (bool, error) { return true, nil },
-		[]testing.InternalTest{{Name: "conntrack", F: func(t *testing.T) {
-			for i := 0; i < 4; i++ {
-				synctest.Test(t, func(t *testing.T) {
-					rnd := func(b []byte) { copy(b, c.RandBytes(len(b))) }
-					w, err := nebula.VerifCTNew(rnd, true, []netip.Prefix{netip.MustParsePrefix("10.0.0.1/24")}, nil,
-						"firewall:\n  inbound:\n    - port: any\n      proto: any\n      host: any\n")
-					if err != nil {
-						panic(err)
-					}
-					p := w.AddPeer("p1", []netip.Prefix{netip.MustParsePrefix("10.0.0.2/24")}, nil, []string{"g1"})
-					q := w.AddPeer("p2", []netip.Prefix{netip.MustParsePrefix("10.0.0.3/24")}, nil, []string{"g1"})
-					f := firewall.Packet{LocalAddr: netip.MustParseAddr("10.0.0.1"), RemoteAddr: netip.MustParseAddr("10.0.0.2"), LocalPort: 10, RemotePort: 90, Protocol: 6}
-					g := firewall.Packet{LocalAddr: netip.MustParseAddr("10.0.0.1"), RemoteAddr: netip.MustParseAddr("10.0.0.3"), LocalPort: 10, RemotePort: 90, Protocol: 17}
-					if i == 2 || i == 3 {
-						w.SetRulesVersion(65535)
-						if i == 3 { w.SetRulesVersion(7) }
-						v1, _ := w.Drop(f, true, p, nil)
-						v2, _ := w.Drop(f, false, p, nil)
-						inst, err := w.Reload("firewall:\n  conntrack:\n    tcp_timeout: 13m\n  inbound:\n    - port: any\n      proto: any\n      host: any\n", false, nil)
-						v3, _ := w.Drop(f, false, p, nil)
-						fmt.Println("wrap", v1, v2, inst, err, w.RulesVersion(), v3)
-						return
-					}
-					v1, _ := w.Drop(f, true, p, nil)
-					time.Sleep(3 * time.Minute)
-					v2, _ := w.Drop(f, false, p, nil)
-					time.Sleep(12 * time.Minute)
-					if i == 0 {
-						vg, _ := w.Drop(g, true, q, nil)
-						fmt.Println("churn", vg)
-					}
-					v3, _ := w.Drop(f, false, p, nil)
-					fmt.Println(i, v1, v2, v3)
-				})
+func ctRnd(c *hx.Ctx) func([]byte) {
+	return func(b []byte) { copy(b, c.RandBytes(len(b))) }
+}
+
+func genConntrack(c *hx.Ctx) {
+	k, err := nebula.VerifCTGetConsts(ctRnd(c))
+	if err != nil {
+		fmt.Fprintln(os.Stderr, "gen_conntrack:", err)
+		os.Exit(1)
+	}
+	var sb strings.Builder
+	sb.WriteString("(* GENERATED from /repo (firewall/packet.go, firewall.go NewFirewallFromConfig) by harness gen_conntrack: do not edit *)\n")
+	sb.WriteString("From Coq Require Import NArith ZArith.\n")
+	sb.WriteString("(* firewall.ProtoTCP / ProtoUDP / ProtoICMP / ProtoICMPv6 / ProtoAny *)\n")
+	fmt.Fprintf(&sb, "Definition ProtoTCP : N := %d%%N.\n", k.ProtoTCP)
+	fmt.Fprintf(&sb, "Definition ProtoUDP : N := %d%%N.\n", k.ProtoUDP)
+	fmt.Fprintf(&sb, "Definition ProtoICMP : N := %d%%N.\n", k.ProtoICMP)
+	fmt.Fprintf(&sb, "Definition ProtoICMPv6 : N := %d%%N.\n", k.ProtoICMPv6)
+	fmt.Fprintf(&sb, "Definition ProtoAny : N := %d%%N.\n", k.ProtoAny)
+	sb.WriteString("(* conntrack timeouts of a firewall built by NewFirewallFromConfig from a configuration that sets none (ns) *)\n")
+	fmt.Fprintf(&sb, "Definition DefaultTCPTimeout : Z := %d%%Z.\n", int64(k.DefTCP))
+	fmt.Fprintf(&sb, "Definition DefaultUDPTimeout : Z := %d%%Z.\n", int64(k.DefUDP))
+	fmt.Fprintf(&sb, "Definition DefaultDefaultTimeout : Z := %d%%Z.\n", int64(k.DefDefault))
+	c.WriteFile("Consts_Conntrack.v", sb.String())
+}
+
+// ---- the world every history runs in -------------------------------------------------------------------------
+
+var ctMyNets = []netip.Prefix{netip.MustParsePrefix("10.0.0.1/24"), netip.MustParsePrefix("fd00::1/64")}
+
+// our certificate's unsafe networks, by variant
+var ctUnsafe = [][]netip.Prefix{
+	nil,
+	{netip.MustParsePrefix("192.168.0.0/24")},
+	{netip.MustParsePrefix("192.168.0.0/24"), netip.MustParsePrefix("192.168.9.0/24")},
+}
+
+type ctPeerDef struct {
+	name   string
+	nets   []string
+	unsafe []string
+	groups []string
+	remote []string // addresses this peer may legitimately send from
+}
+
+var ctPeers = []ctPeerDef{
+	{"peer0", []string{"10.0.0.2/24"}, nil, []string{"g1"}, []string{"10.0.0.2"}},
+	{"peer1", []string{"10.0.0.3/24"}, nil, []string{"g1", "g2"}, []string{"10.0.0.3"}},
+	{"peer2", []string{"10.0.0.4/24"}, []string{"172.16.0.0/16"}, []string{"g2"}, []string{"10.0.0.4", "172.16.5.5"}},
+	{"peer3", []string{"10.0.0.5/24", "fd00::2/64"}, nil, []string{"g1"}, []string{"10.0.0.5", "fd00::2"}},
+}
+
+var ctLocals4 = []string{"10.0.0.1", "10.0.0.1", "10.0.0.1", "192.168.0.5", "192.168.9.7", "10.0.0.99"}
+
+// rule fragments (YAML, list items of firewall.inbound / firewall.outbound)
+var ctRuleFrag = []string{
+	"    - port: any\n      proto: any\n      host: any\n",
+	"    - port: 80\n      proto: tcp\n      group: g1\n",
+	"    - port: 1000-1010\n      proto: udp\n      host: peer0\n",
+	"    - port: any\n      proto: icmp\n      cidr: 10.0.0.0/24\n",
+	"    - port: fragment\n      proto: any\n      host: any\n",
+	"    - port: any\n      proto: any\n      groups:\n        - g1\n        - g2\n",
+	"    - port: 53\n      proto: udp\n      cidr: 172.16.0.0/16\n",
+	"    - port: any\n      proto: tcp\n      ca_name: verif-ca\n",
+	"    - port: any\n      proto: any\n      host: any\n      local_cidr: 192.168.0.0/24\n",
+	"    - port: any\n      proto: any\n      cidr: fd00::/64\n",
+	"    - port: 4000\n      proto: any\n      host: peer1\n",
+	"    - port: any\n      proto: udp\n      group: g2\n",
+}
+
+// a rule set: fragments of the inbound and of the outbound table
+type ctRules struct{ in, out []int }
+
+type ctTimeouts struct{ tcp, udp, def int64 }
+
+func ctYAML(r ctRules, t ctTimeouts) string {
+	var sb strings.Builder
+	sb.WriteString("firewall:\n  conntrack:\n")
+	fmt.Fprintf(&sb, "    tcp_timeout: %dns\n    udp_timeout: %dns\n    default_timeout: %dns\n", t.tcp, t.udp, t.def)
+	for i, l := range [][]int{r.in, r.out} {
+		name := []string{"inbound", "outbound"}[i]
+		if len(l) == 0 {
+			fmt.Fprintf(&sb, "  %s: []\n", name)
+			continue
+		}
+		fmt.Fprintf(&sb, "  %s:\n", name)
+		for _, k := range l {
+			sb.WriteString(ctRuleFrag[k])
+		}
+	}
+	return sb.String()
+}
+
+// a flow as the node sees it; the wire packet of either direction is derived from it
+type ctFlow struct {
+	peer          int
+	local, remote netip.Addr
+	lport, rport  uint16 // ICMP: lport 0, rport = echo identifier
+	proto         uint8
+	frag          bool
+}
+
+type ctWire struct {
+	src, dst netip.Addr
+	sp, dp   uint16
+	proto    uint8
+	frag     bool
+}
+
+func (f ctFlow) wire(incoming bool) ctWire {
+	w := ctWire{proto: f.proto, frag: f.frag}
+	if incoming {
+		w.src, w.dst, w.sp, w.dp = f.remote, f.local, f.rport, f.lport
+	} else {
+		w.src, w.dst, w.sp, w.dp = f.local, f.remote, f.lport, f.rport
+	}
+	if f.proto == firewall.ProtoICMP {
+		w.sp, w.dp = 0, f.rport
+	}
+	return w
+}
+
+func (w ctWire) bytes() []byte {
+	be := func(b []byte, v uint16) { b[0], b[1] = byte(v>>8), byte(v) }
+	if w.src.Is4() {
+		b := make([]byte, 20+24)
+		b[0] = 0x45
+		be(b[2:], uint16(len(b)))
+		if w.frag {
+			be(b[6:], 0x0001) // fragment offset 1: a later fragment
+		}
+		b[8] = 64
+		b[9] = w.proto
+		s, d := w.src.As4(), w.dst.As4()
+		copy(b[12:16], s[:])
+		copy(b[16:20], d[:])
+		if w.proto == firewall.ProtoICMP {
+			b[20] = 8 // echo request
+			be(b[24:], w.dp)
+		} else {
+			be(b[20:], w.sp)
+			be(b[22:], w.dp)
+		}
+		return b
+	}
+	b := make([]byte, 40+24)
+	b[0] = 0x60
+	be(b[4:], 24)
+	b[6] = w.proto
+	b[7] = 64
+	s, d := w.src.As16(), w.dst.As16()
+	copy(b[8:24], s[:])
+	copy(b[24:40], d[:])
+	be(b[40:], w.sp)
+	be(b[42:], w.dp)
+	return b
+}
+
+// addresses as numbers: IPv4 the 32-bit value, IPv6 2^128 + the 128-bit value
+func ctAddrN(a netip.Addr) string {
+	n := new(big.Int)
+	if a.Is4() {
+		x := a.As4()
+		n.SetBytes(x[:])
+	} else {
+		x := a.As16()
+		n.SetBytes(x[:])
+		n.Add(n, new(big.Int).Lsh(big.NewInt(1), 128))
+	}
+	return n.String()
+}
+
+func ctWireLit(w ctWire) string {
+	return hx.App("T6", ctAddrN(w.src), ctAddrN(w.dst), hx.N(uint64(w.sp)), hx.N(uint64(w.dp)), hx.N(uint64(w.proto)), hx.Bool(w.frag))
+}
+
+func ctTupleLit(p firewall.Packet) string {
+	return hx.App("T6", ctAddrN(p.LocalAddr), ctAddrN(p.RemoteAddr), hx.N(uint64(p.LocalPort)), hx.N(uint64(p.RemotePort)),
+		hx.N(uint64(p.Protocol)), hx.Bool(p.Fragment))
+}
+
+// ---- histories ---------------------------------------------------------------------------------------------------
+
+type ctEv struct {
+	kind     int // 0 packet, 1 sleep, 2 reload
+	peer     int
+	incoming bool
+	flow     ctFlow
+	d        int64
+	rules    int // reload: index into hist.rulesets
+	unsafe   int // reload: unsafe-network variant of our certificate
+	to       ctTimeouts
+}
+
+type ctHist struct {
+	kind     string
+	rulesets []ctRules
+	rules0   int
+	unsafe0  int
+	to0      ctTimeouts
+	v0       uint16
+	evs      []ctEv
+}
+
+type ctRow struct {
+	rs, peer   int
+	tup        firewall.Packet
+	ok, ai, ao bool
+}
+
+type ctResult struct {
+	lit       string
+	desc      map[string]any
+	nontriv   bool
+	fail      string // a failure the harness itself established (not evaluable in Coq)
+	honoured  int    // passes that no rule allowed (rode on conntrack)
+	expired   int    // refusals of a flow that had passed before
+	installed int
+}
+
+func ctRunHist(t *testing.T, c *hx.Ctx, h *ctHist) (res ctResult) {
+	synctest.Test(t, func(t *testing.T) {
+		res = ctRunHistIn(c, h)
+	})
+	return res
+}
+
+func ctPrefixes(ss []string) []netip.Prefix {
+	var r []netip.Prefix
+	for _, s := range ss {
+		r = append(r, netip.MustParsePrefix(s))
+	}
+	return r
+}
+
+func ctRunHistIn(c *hx.Ctx, h *ctHist) (res ctResult) {
+	w, err := nebula.VerifCTNew(ctRnd(c), c.Chance(0.5), ctMyNets, ctUnsafe[h.unsafe0], ctYAML(h.rulesets[h.rules0], h.to0))
+	if err != nil {
+		res.fail = "VerifCTNew: " + err.Error()
+		return
+	}
+	for _, p := range ctPeers {
+		w.AddPeer(p.name, ctPrefixes(p.nets), ctPrefixes(p.unsafe), p.groups)
+	}
+	w.SetRulesVersion(h.v0)
+
+	// a rule set is identified by the text of its rules and the unsafe networks of our certificate
+	type rsKey struct {
+		rules  string
+		unsafe int
+	}
+	mkKey := func(rules, unsafe int) rsKey { return rsKey{ctYAML(h.rulesets[rules], ctTimeouts{}), unsafe} }
+	rsIDs := map[rsKey]int{}
+	rsID := func(k rsKey) int {
+		if id, ok := rsIDs[k]; ok {
+			return id
+		}
+		rsIDs[k] = len(rsIDs)
+		return len(rsIDs) - 1
+	}
+	cur := mkKey(h.rules0, h.unsafe0)
+	curTo := h.to0
+	rs0 := rsID(cur)
+
+	type rowKey struct {
+		rs, peer int
+		tup      firewall.Packet
+	}
+	rows := map[rowKey]ctRow{}
+	var rowOrder []rowKey
+	var evLits []string
+	var obs []uint64
+	var descEv []any
+	passedBefore := map[firewall.Packet]bool{}
+
+	for _, e := range h.evs {
+		switch e.kind {
+		case 0:
+			wr := e.flow.wire(e.incoming)
+			fp, perr := w.NewPacket(wr.bytes(), e.incoming)
+			if perr != nil {
+				res.fail = "newPacket refused a generated packet: " + perr.Error()
+				return
 			}
-		}}}, nil, nil)
+			id := rsID(cur)
+			k := rowKey{id, e.peer, fp}
+			row := ctRow{rs: id, peer: e.peer, tup: fp, ok: w.AddrOK(fp, e.peer), ai: w.Allowed(fp, true, e.peer), ao: w.Allowed(fp, false, e.peer)}
+			if old, seen := rows[k]; seen {
+				if old != row {
+					res.fail = "address checks / rule match are not a function of (rule set, peer, tuple)"
+					return
+				}
+			} else {
+				rows[k] = row
+				rowOrder = append(rowOrder, k)
+			}
+			v, pan := w.Drop(fp, e.incoming, e.peer, nil)
+			if pan != "" {
+				res.fail = "Drop panicked: " + pan
+				return
+			}
+			own := row.ao
+			if e.incoming {
+				own = row.ai
+			}
+			if v == 0 && !own {
+				res.honoured++
+			}
+			if v != 0 && row.ok && passedBefore[fp] {
+				res.expired++
+				passedBefore[fp] = false
+			}
+			if v == 0 {
+				passedBefore[fp] = true
+			}
+			obs = append(obs, uint64(v))
+			evLits = append(evLits, hx.App("CP", hx.N(uint64(e.peer)), hx.Bool(e.incoming), ctWireLit(wr), ctTupleLit(fp)))
+			descEv = append(descEv, []any{"pkt", e.peer, e.incoming, fp.LocalAddr.String(), fp.RemoteAddr.String(), fp.LocalPort, fp.RemotePort, fp.Protocol, fp.Fragment, v})
+		case 1:
+			time.Sleep(time.Duration(e.d))
+			evLits = append(evLits, hx.App("CS", hx.Z(e.d)))
+			descEv = append(descEv, []any{"sleep", e.d})
+		case 2:
+			nk := mkKey(e.rules, e.unsafe)
+			changed := nk != cur || e.to != curTo
+			inst, rerr := w.Reload(ctYAML(h.rulesets[e.rules], e.to), e.unsafe != cur.unsafe, ctUnsafe[e.unsafe])
+			if rerr != nil {
+				res.fail = "reload: " + rerr.Error()
+				return
+			}
+			if inst {
+				res.installed++
+			}
+			if changed {
+				cur, curTo = nk, e.to
+				evLits = append(evLits, hx.App("CR", hx.N(uint64(rsID(cur))), hx.Z(e.to.tcp), hx.Z(e.to.udp), hx.Z(e.to.def), hx.Bool(inst)))
+				descEv = append(descEv, []any{"reload", rsID(cur), e.rules, e.unsafe, e.to.tcp, e.to.udp, e.to.def, inst, w.RulesVersion()})
+			} else {
+				evLits = append(evLits, hx.App("CN", hx.Bool(inst)))
+				descEv = append(descEv, []any{"reload-unchanged", inst})
+			}
+		}
+	}
+	var rowLits []string
+	for _, k := range rowOrder {
+		r := rows[k]
+		rowLits = append(rowLits, hx.App("Rw", hx.N(uint64(r.rs)), hx.N(uint64(r.peer)), ctTupleLit(r.tup), hx.Bool(r.ok), hx.Bool(r.ai), hx.Bool(r.ao)))
+	}
+	res.lit = hx.App("CHist", hx.N(uint64(rs0)), hx.N(uint64(h.v0)), hx.Z(h.to0.tcp), hx.Z(h.to0.udp), hx.Z(h.to0.def),
+		hx.List(rowLits), hx.List(evLits), hx.NList(obs))
+	res.desc = map[string]any{"kind": h.kind, "v0": h.v0, "timeouts": []int64{h.to0.tcp, h.to0.udp, h.to0.def},
+		"rulesets": fmt.Sprint(h.rulesets), "rules0": h.rules0, "unsafe0": h.unsafe0, "events": descEv, "tracked_at_end": w.Tracked()}
+	res.nontriv = res.honoured > 0 && (res.expired > 0 || res.installed > 0)
+	return
+}
+
+// ---- generators -----------------------------------------------------------------------------------------------
+
+const (
+	ctSec = int64(time.Second)
+	ctMin = int64(time.Minute)
+)
+
+var ctDefaultTo = ctTimeouts{12 * ctMin, 3 * ctMin, 10 * ctMin}
+
+func (t ctTimeouts) of(proto uint8) int64 {
+	switch proto {
+	case firewall.ProtoTCP:
+		return t.tcp
+	case firewall.ProtoUDP:
+		return t.udp
+	}
+	return t.def
+}
+
+func (t ctTimeouts) tick() int64 { return min(t.tcp, t.udp, t.def) }
+
+// random timeouts with max/min <= 40 (the wheel has max/min + 2 slots)
+func ctRandTimeouts(c *hx.Ctx) ctTimeouts {
+	if c.Chance(0.4) {
+		return ctDefaultTo
+	}
+	base := []int64{ctSec, 7 * ctSec, 30 * ctSec, ctMin, 90*ctSec + 1, 3 * ctMin}[c.Intn(6)]
+	m := func() int64 { return base * int64(1+c.Intn(12)) / int64(1+c.Intn(3)) }
+	t := ctTimeouts{m(), m(), m()}
+	for _, p := range []*int64{&t.tcp, &t.udp, &t.def} {
+		if *p < base/3+1 {
+			*p = base/3 + 1
+		}
+	}
+	return t
+}
+
+func ctRandRules(c *hx.Ctx) ctRules {
+	var r ctRules
+	if c.Chance(0.55) {
+		r.in = append(r.in, 0)
+	}
+	for i := c.Intn(3); i > 0; i-- {
+		r.in = append(r.in, c.Intn(len(ctRuleFrag)))
+	}
+	if c.Chance(0.25) {
+		r.out = append(r.out, 0)
+	}
+	for i := c.Intn(3); i > 0; i-- {
+		r.out = append(r.out, c.Intn(len(ctRuleFrag)))
+	}
+	return r
+}
+
+func ctRandFlow(c *hx.Ctx) ctFlow {
+	f := ctFlow{peer: c.Intn(len(ctPeers))}
+	pd := ctPeers[f.peer]
+	f.remote = netip.MustParseAddr(pd.remote[c.Intn(len(pd.remote))])
+	if c.Chance(0.06) { // an address of somebody else
+		od := ctPeers[c.Intn(len(ctPeers))]
+		f.remote = netip.MustParseAddr(od.remote[0])
+	}
+	if f.remote.Is4() {
+		f.local = netip.MustParseAddr("10.0.0.1")
+		if c.Chance(0.2) { // an unsafe network of ours (routable or not, depending on our certificate), or not ours at all
+			f.local = netip.MustParseAddr(ctLocals4[c.Intn(len(ctLocals4))])
+		}
+	} else {
+		f.local = netip.MustParseAddr("fd00::1")
+	}
+	f.lport = []uint16{80, 1005, 53, 4000, 22}[c.Intn(5)]
+	f.rport = []uint16{40000, 40001, 80, 53}[c.Intn(4)]
+	if f.remote.Is4() {
+		switch c.Intn(10) {
+		case 0, 1, 2, 3:
+			f.proto = firewall.ProtoTCP
+		case 4, 5, 6:
+			f.proto = firewall.ProtoUDP
+		case 7:
+			f.proto = firewall.ProtoICMP
+			f.lport = 0
+		case 8:
+			f.proto = 47
+		default:
+			f.proto = []uint8{firewall.ProtoTCP, firewall.ProtoUDP}[c.Intn(2)]
+			f.frag = true
+			f.lport, f.rport = 0, 0
+		}
+	} else {
+		f.proto = []uint8{firewall.ProtoTCP, firewall.ProtoUDP}[c.Intn(2)]
+	}
+	return f
+}
+
+func ctGap(c *hx.Ctx, T, tick int64) int64 {
+	switch c.Intn(20) {
+	case 0, 1, 2, 3:
+		return T
+	case 4, 5, 6:
+		return T - 1
+	case 7, 8, 9:
+		return T + 1
+	case 10, 11, 12:
+		return T / 2
+	case 13, 14:
+		return 2*T + 7
+	case 15:
+		return tick
+	case 16:
+		return 5 * int64(time.Hour)
+	case 17:
+		return -int64(c.Intn(5))
+	default:
+		return int64(c.Intn(int(tick)+1)) / int64(1+c.Intn(4))
+	}
+}
+
+func ctRandHist(c *hx.Ctx, reloads bool) *ctHist {
+	h := &ctHist{kind: "random", to0: ctRandTimeouts(c), unsafe0: c.Intn(3)}
+	if c.Chance(0.5) {
+		h.unsafe0 = 0
+	}
+	nr := 1
+	if reloads {
+		nr = 2 + c.Intn(3)
+		h.kind = "random-reload"
+		switch c.Intn(4) {
+		case 0:
+			h.v0 = 0
+		case 1:
+			h.v0 = uint16(c.Intn(65536))
+		default:
+			h.v0 = uint16(65535 - c.Intn(4)) // the wrap happens within the history
+		}
+	}
+	for i := 0; i < nr; i++ {
+		h.rulesets = append(h.rulesets, ctRandRules(c))
+	}
+	if reloads && c.Chance(0.5) { // one rule set that says the same in other words
+		r := h.rulesets[0]
+		h.rulesets = append(h.rulesets, ctRules{in: append(append([]int{}, r.in...), r.in...), out: r.out})
+	}
+	flows := make([]ctFlow, 3+c.Intn(3))
+	for i := range flows {
+		flows[i] = ctRandFlow(c)
+	}
+	if c.Chance(0.5) { // two flows differing in one field only
+		g := flows[0]
+		switch c.Intn(3) {
+		case 0:
+			g.rport ^= 1
+		case 1:
+			g.lport ^= 1
+		default:
+			if g.proto == firewall.ProtoTCP {
+				g.proto = firewall.ProtoUDP
+			} else if g.proto == firewall.ProtoUDP {
+				g.proto = firewall.ProtoTCP
+			}
+		}
+		if g.proto == firewall.ProtoICMP {
+			g.lport = 0
+		}
+		if g.frag {
+			g.lport, g.rport = 0, 0
+		}
+		flows[1] = g
+	}
+	curTo := h.to0
+	churnPort := uint16(20000)
+	n := 12 + c.Intn(40)
+	for i := 0; i < n; i++ {
+		r := c.Intn(100)
+		switch {
+		case r < 55:
+			f := flows[c.Intn(len(flows))]
+			e := ctEv{kind: 0, flow: f, peer: f.peer, incoming: c.Chance(0.5)}
+			if c.Chance(0.07) {
+				e.peer = c.Intn(len(ctPeers))
+			}
+			h.evs = append(h.evs, e)
+		case r < 80:
+			f := flows[c.Intn(len(flows))]
+			h.evs = append(h.evs, ctEv{kind: 1, d: ctGap(c, curTo.of(f.proto), curTo.tick())})
+		case r < 90 || !reloads:
+			// churn: a packet of a flow never seen before
+			f := ctRandFlow(c)
+			if !f.frag {
+				f.rport = churnPort
+				churnPort++
+			}
+			h.evs = append(h.evs, ctEv{kind: 0, flow: f, peer: f.peer, incoming: c.Chance(0.7)})
+		default:
+			e := ctEv{kind: 2, rules: c.Intn(len(h.rulesets)), unsafe: h.unsafe0, to: curTo}
+			if c.Chance(0.3) {
+				e.unsafe = c.Intn(3)
+			}
+			if c.Chance(0.3) {
+				e.to = ctRandTimeouts(c)
+			}
+			if c.Chance(0.15) { // a reload that changes nothing at all
+				if len(h.evs) > 0 {
+					e = ctLastCfg(h)
+				}
+			}
+			curTo = e.to
+			h.evs = append(h.evs, e)
+		}
+	}
+	return h
+}
+
+// the configuration in force at the end of h, as a reload event (reloading it changes nothing)
+func ctLastCfg(h *ctHist) ctEv {
+	e := ctEv{kind: 2, rules: h.rules0, unsafe: h.unsafe0, to: h.to0}
+	for _, x := range h.evs {
+		if x.kind == 2 {
+			e = x
+		}
+	}
+	return e
+}
+
+func ctSweepConntrack() []*ctHist {
+	var hs []*ctHist
+	f4 := func(proto uint8) ctFlow {
+		f := ctFlow{peer: 0, local: netip.MustParseAddr("10.0.0.1"), remote: netip.MustParseAddr("10.0.0.2"), lport: 80, rport: 40000, proto: proto}
+		if proto == firewall.ProtoICMP {
+			f.lport = 0
+		}
+		return f
+	}
+	g := ctFlow{peer: 1, local: netip.MustParseAddr("10.0.0.1"), remote: netip.MustParseAddr("10.0.0.3"), lport: 53, rport: 40001, proto: firewall.ProtoUDP}
+	pkt := func(f ctFlow, in bool) ctEv { return ctEv{kind: 0, flow: f, peer: f.peer, incoming: in} }
+	sl := func(d int64) ctEv { return ctEv{kind: 1, d: d} }
+	// the two witnesses: F4 (5 h idle, no churn) and the exact-instant eviction (props/C18.v, C18_boundary_churn_refuted)
+	hs = append(hs,
+		&ctHist{kind: "sweep/witness/f4", rulesets: []ctRules{{in: []int{0}}}, to0: ctDefaultTo,
+			evs: []ctEv{pkt(f4(firewall.ProtoUDP), true), pkt(f4(firewall.ProtoUDP), false), sl(5 * int64(time.Hour)), pkt(f4(firewall.ProtoUDP), false)}},
+		&ctHist{kind: "sweep/witness/instant-quiet", rulesets: []ctRules{{in: []int{0}}}, to0: ctDefaultTo,
+			evs: []ctEv{pkt(f4(firewall.ProtoTCP), true), sl(3 * ctMin), pkt(f4(firewall.ProtoTCP), false), sl(12 * ctMin), pkt(f4(firewall.ProtoTCP), false)}},
+		&ctHist{kind: "sweep/witness/instant-churn", rulesets: []ctRules{{in: []int{0}}}, to0: ctDefaultTo,
+			evs: []ctEv{pkt(f4(firewall.ProtoTCP), true), sl(3 * ctMin), pkt(f4(firewall.ProtoTCP), false), sl(12 * ctMin), pkt(g, true), pkt(f4(firewall.ProtoTCP), false)}})
+	for _, to := range []ctTimeouts{ctDefaultTo, {40 * ctSec, 25 * ctSec, 90 * ctSec}} {
+		for _, proto := range []uint8{firewall.ProtoTCP, firewall.ProtoUDP, firewall.ProtoICMP, 47} {
+			T := to.of(proto)
+			{
+				for gi, gap := range []int64{T - 1, T, T + 1, 5 * int64(time.Hour)} {
+					for churn := 0; churn < 3; churn++ {
+						refresh := (gi+churn)%2 == 0
+						f := f4(proto)
+						h := &ctHist{kind: fmt.Sprintf("sweep/proto%d/gap%d/churn%d", proto, gi, churn), rulesets: []ctRules{{in: []int{0}}}, to0: to}
+						h.evs = append(h.evs, pkt(f, false), pkt(f, true), pkt(f, false))
+						if refresh {
+							h.evs = append(h.evs, sl(to.tick()), pkt(f, false))
+						}
+						gg := g
+						switch churn {
+						case 0:
+							h.evs = append(h.evs, sl(gap))
+						case 1: // unrelated flow inserted at the very instant
+							h.evs = append(h.evs, sl(gap), pkt(gg, true))
+						case 2: // unrelated flows inserted on the way
+							h.evs = append(h.evs, sl(gap/2), pkt(gg, true))
+							gg.rport++
+							h.evs = append(h.evs, sl(gap-gap/2-1), pkt(gg, true), sl(1))
+						}
+						h.evs = append(h.evs, pkt(f, false), pkt(f, false), pkt(f, true), pkt(f, false))
+						hs = append(hs, h)
+					}
+				}
+			}
+		}
+	}
+	return hs
+}
+
+func ctSweepReload() []*ctHist {
+	var hs []*ctHist
+	f := ctFlow{peer: 0, local: netip.MustParseAddr("10.0.0.1"), remote: netip.MustParseAddr("10.0.0.2"), lport: 80, rport: 40000, proto: firewall.ProtoTCP}
+	u := ctFlow{peer: 0, local: netip.MustParseAddr("192.168.0.5"), remote: netip.MustParseAddr("10.0.0.2"), lport: 80, rport: 40000, proto: firewall.ProtoTCP}
+	pkt := func(f ctFlow, in bool) ctEv { return ctEv{kind: 0, flow: f, peer: f.peer, incoming: in} }
+	// 0: inbound any   1: inbound udp for g2 only   2: the same as 0 in other words   3: outbound any
+	rulesets := []ctRules{{in: []int{0}}, {in: []int{11}}, {in: []int{0, 0, 1}}, {out: []int{0}}}
+	to := ctDefaultTo
+	to2 := ctTimeouts{13 * ctMin, 3 * ctMin, 10 * ctMin}
+	rl := func(r, un int, t ctTimeouts) ctEv { return ctEv{kind: 2, rules: r, unsafe: un, to: t} }
+	pats := map[string][]ctEv{
+		"revert":        {rl(1, 0, to), rl(0, 0, to)},
+		"cut":           {rl(1, 0, to)},
+		"cut-then-ask":  {rl(1, 0, to), pkt(f, false), rl(0, 0, to)},
+		"same-words":    {rl(2, 0, to)},
+		"timeouts-only": {rl(0, 0, to2)},
+		"unchanged":     {rl(0, 0, to)},
+		"other-dir":     {rl(3, 0, to)},
+		"unsafe-on":     {rl(0, 1, to)},
+		"unsafe-on-off": {rl(0, 1, to), pkt(u, true), pkt(u, false), rl(0, 0, to), pkt(u, false), rl(0, 1, to), pkt(u, false)},
+	}
+	names := []string{"revert", "cut", "cut-then-ask", "same-words", "timeouts-only", "unchanged", "other-dir", "unsafe-on", "unsafe-on-off"}
+	for _, v0 := range []uint16{0, 7, 65533, 65534, 65535} {
+		for _, name := range names {
+			h := &ctHist{kind: fmt.Sprintf("sweep/%s/v%d", name, v0), rulesets: rulesets, to0: to, v0: v0}
+			h.evs = append(h.evs, pkt(f, true), pkt(f, false))
+			h.evs = append(h.evs, pats[name]...)
+			h.evs = append(h.evs, pkt(f, false), pkt(f, false), ctEv{kind: 1, d: ctMin}, pkt(f, true), pkt(f, false))
+			hs = append(hs, h)
+		}
+	}
+	// many reloads in a row across the wrap, traffic in between
+	for _, v0 := range []uint16{65530, 65535} {
+		h := &ctHist{kind: fmt.Sprintf("sweep/many/v%d", v0), rulesets: rulesets, to0: to, v0: v0}
+		h.evs = append(h.evs, pkt(f, true))
+		for i := 0; i < 12; i++ {
+			t := to
+			if i%2 == 0 {
+				t = to2
+			}
+			h.evs = append(h.evs, rl([]int{0, 2}[i%2], 0, t), pkt(f, false))
+		}
+		hs = append(hs, h)
+	}
+	return hs
+}
+
+func runCT(c *hx.Ctx, reloads bool) {
+	testing.Main(func(pat, str string) (bool, error) { return true, nil },
+		[]testing.InternalTest{{Name: "conntrack", F: func(t *testing.T) { runCTIn(t, c, reloads) }}}, nil, nil)
+}
+
+func runCTIn(t *testing.T, c *hx.Ctx, reloads bool) {
+	per := c.N/16 + 1
+	if per < 8 {
+		per = 8
+	}
+	if per > 120 {
+		per = 120
+	}
+	cw := c.NewCaseWriter("From NV Require Import model.Conntrack model.FwReload corr.Conntrack_corr.", "case", "check_case", per)
+	var hs []*ctHist
+	if reloads {
+		hs = ctSweepReload()
+	} else {
+		hs = ctSweepConntrack()
+	}
+	if len(hs) > c.N*2/3 { // keep room for random histories in small runs
+		hs = hs[:c.N*2/3]
+	}
+	for len(hs) < c.N {
+		hs = append(hs, ctRandHist(c, reloads))
+	}
+	var failures []map[string]any
+	honoured, expired, installed := 0, 0, 0
+	for _, h := range hs {
+		r := ctRunHist(t, c, h)
+		if r.fail != "" {
+			failures = append(failures, map[string]any{"i": cw.Total(), "code": 1, "what": r.fail})
+			cw.Add(hx.App("CHist", "0", "0", "1%Z", "1%Z", "1%Z", "[]", "[]", "[]"), "harness-failure", false,
+				map[string]any{"kind": h.kind, "failure": r.fail})
+			continue
+		}
+		honoured += r.honoured
+		expired += r.expired
+		installed += r.installed
+		kind := h.kind
+		if i := strings.Index(kind, "/"); i > 0 {
+			kind = kind[:i]
+		}
+		cw.Add(r.lit, kind, r.nontriv, r.desc)
+	}
+	if len(failures) > 0 {
+		cw.Meta("failures", failures)
+	}
+	cw.Meta("passes_riding_on_conntrack", honoured)
+	cw.Meta("refusals_of_previously_passing_flows", expired)
+	cw.Meta("reloads_installed", installed)
+	cw.Meta("clock", "testing/synctest virtual clock (one bubble per history)")
+	rule := "nontrivial = a history in which some packet passed that no rule allows (it rode on a tracked flow) and some flow that had passed was later refused"
+	if reloads {
+		rule += " or a reload installed a new firewall"
+	}
+	cw.Close(rule)
 }
